@@ -226,6 +226,15 @@ def Sys.stepR (s : Sys α) (n : Nat) : Option (Sys α) :=
   | .wait => if s.pipe.readyR then some { s with rpc := .run } else none
   | .done => none
 
+/-- a reader that stops early (`head`-like consumer): it closes its end while still running; the
+    writer's next `write` then fails with EPIPE.  Not a step of `Sys.step` — the transfer theorems
+    assume a reader that reads to end of file; `Reach2` (Lemmas.lean) adds this step and keeps the
+    conservation law. -/
+def Sys.stepRClose (s : Sys α) : Option (Sys α) :=
+  match s.rpc with
+  | .run => some { s with pipe := s.pipe.closeFd true false, rpc := .done }
+  | _ => none
+
 def Sys.step (c : Cfg) (s : Sys α) : Act → Option (Sys α)
   | .w k => s.stepW c k
   | .r n => s.stepR n
